@@ -298,14 +298,14 @@ theorem formatResponse_csv_cases (N : NumOps) (m : List (String × CsvMapping)) 
 
 /-! ### one `write_response` -/
 
-theorem write_ok_of_writable (N : NumOps) (s : FileSink) (r : Json) (hp : s.poisoned = false)
+theorem write_ok_of_writable (N : NumOps) (s : FileSink) (r : Json) (hp : s.Healthy)
     (hw : Writable N s.format r) :
     ∃ s', s.write N r = .ok s' (postOf N s.format r) ∧
       s'.file = s.file ++ [recordOf N s.format r] ∧ s'.iterations = s.iterations + 1 ∧
-      s'.format = s.format ∧ s'.poisoned = false ∧ s'.flushEvery = s.flushEvery := by
+      s'.format = s.format ∧ s'.Healthy ∧ s'.flushEvery = s.flushEvery := by
   unfold FileSink.write
-  rw [hp, formatResponse_of_writable hw]
-  simp [recordOf]
+  rw [hp.1, formatResponse_of_writable hw]
+  simp [recordOf, hp.2, FileSink.Healthy]
 
 /-! ### Combined sinks -/
 
@@ -336,7 +336,7 @@ def AppendedOne : List FileSink → List FileSink → Prop
   | _, _ => False
 
 theorem writeCombined_objects (N : NumOps) (ss : List FileSink) (r : Json)
-    (hp : ∀ s ∈ ss, s.poisoned = false) (hr : r.isObject = true) :
+    (hp : ∀ s ∈ ss, s.Healthy) (hr : r.isObject = true) :
     ∃ ss' r', writeCombined N ss r = .ok ss' r' ∧ r'.isObject = true ∧ AppendedOne ss ss' := by
   induction ss generalizing r with
   | nil => exact ⟨[], r, rfl, hr, trivial⟩
@@ -388,14 +388,14 @@ structure Progress (N : NumOps) (persist : Bool) (s s' : Run) (trace : List Json
   queues : (trace ++ s'.queues.flatten).Perm s.queues.flatten
   iterations : s'.sink.iterations = s.sink.iterations + trace.length
   format : s'.sink.format = s.sink.format
-  poisoned : s'.sink.poisoned = false
+  poisoned : s'.sink.Healthy
   failed : s'.failed = s.failed
   width : s'.queues.length = s.queues.length
   retWidth : s'.returned.length = s.returned.length
   returned : s'.returned.flatten.Perm
     (s.returned.flatten ++ if persist then trace.map (postOf N s.sink.format) else [])
 
-theorem step_progress (N : NumOps) (persist : Bool) (s : Run) (w : Nat) (hp : s.sink.poisoned = false)
+theorem step_progress (N : NumOps) (persist : Bool) (s : Run) (w : Nat) (hp : s.sink.Healthy)
     (hw : ∀ r ∈ s.queues.flatten, Writable N s.sink.format r) (hlen : s.returned.length = s.queues.length) :
     ∃ t, Progress N persist s (s.step N persist w) t := by
   unfold Run.step
@@ -451,7 +451,7 @@ theorem Progress.trans {N : NumOps} {persist : Bool} {s s₁ s₂ : Run} {t₁ t
       exact List.Perm.append_right _ h₁.returned
 
 theorem exec_progress (N : NumOps) (persist : Bool) (sched : List Nat) (s : Run)
-    (hp : s.sink.poisoned = false) (hw : ∀ r ∈ s.queues.flatten, Writable N s.sink.format r)
+    (hp : s.sink.Healthy) (hw : ∀ r ∈ s.queues.flatten, Writable N s.sink.format r)
     (hlen : s.returned.length = s.queues.length) :
     ∃ t, Progress N persist s (s.exec N persist sched) t := by
   induction sched generalizing s with
@@ -490,7 +490,7 @@ theorem handBack_step (N : NumOps) (f : Format) (ret qs : List (List Json)) (w :
         simp only [List.getElem?_cons_succ] at h
         simp only [List.modify_succ_cons, List.set_cons_succ, List.zipWith_cons_cons, ih ret w h]
 
-theorem step_handBack (N : NumOps) (s : Run) (w : Nat) (hp : s.sink.poisoned = false)
+theorem step_handBack (N : NumOps) (s : Run) (w : Nat) (hp : s.sink.Healthy)
     (hw : ∀ r ∈ s.queues.flatten, Writable N s.sink.format r) :
     handBack N s.sink.format (s.step N true w).returned (s.step N true w).queues
       = handBack N s.sink.format s.returned s.queues := by
@@ -507,7 +507,7 @@ theorem step_handBack (N : NumOps) (s : Run) (w : Nat) (hp : s.sink.poisoned = f
       simp only [hs', if_true]
       exact handBack_step N s.sink.format s.returned s.queues w r rest hq
 
-theorem exec_handBack (N : NumOps) (sched : List Nat) (s : Run) (hp : s.sink.poisoned = false)
+theorem exec_handBack (N : NumOps) (sched : List Nat) (s : Run) (hp : s.sink.Healthy)
     (hw : ∀ r ∈ s.queues.flatten, Writable N s.sink.format r) (hlen : s.returned.length = s.queues.length) :
     handBack N s.sink.format (s.exec N true sched).returned (s.exec N true sched).queues
       = handBack N s.sink.format s.returned s.queues := by
@@ -550,11 +550,11 @@ theorem handBack_init (N : NumOps) (f : Format) (qs : List (List Json)) :
 
 /-! ### the main thread's sequential writes, and schedules seen from the queues alone -/
 
-theorem writeSeq_spec (N : NumOps) (rs : List Json) (s : FileSink) (hp : s.poisoned = false)
+theorem writeSeq_spec (N : NumOps) (rs : List Json) (s : FileSink) (hp : s.Healthy)
     (hw : ∀ r ∈ rs, Writable N s.format r) :
     ∃ s', writeSeq N s rs = some (s', rs.map (postOf N s.format)) ∧
       s'.file = s.file ++ rs.map (recordOf N s.format) ∧ s'.iterations = s.iterations + rs.length ∧
-      s'.format = s.format ∧ s'.poisoned = false := by
+      s'.format = s.format ∧ s'.Healthy := by
   induction rs generalizing s with
   | nil => exact ⟨s, rfl, by simp, rfl, rfl, hp⟩
   | cons r rs ih =>
